@@ -102,7 +102,7 @@ func (c *c06env) c06sdwaBody(ci *c06inst, st *c06state, lane int, isF bool) {
 }
 
 // c06sdwaRun: the whole SDWA instruction under an arbitrary EXEC against `vop2Run`; oracle: lane i's result
-// equals its result when it runs alone
+// equals its result when it runs alone with every other lane's registers and mask bits replaced
 func (c *c06env) c06sdwaRun(ci *c06inst, st *c06state, exec uint64) {
 	r := c.r
 	inst := ci.inst
@@ -161,8 +161,15 @@ func (c *c06env) c06sdwaRun(ci *c06inst, st *c06state, exec uint64) {
 				continue
 			}
 			n++
-			s3 := *st
+			// the lane alone, every other lane's row (and VCC / EXEC bit) replaced by something else
+			s3 := *st.clone()
+			for l := 0; l < 64; l++ {
+				if l != lane {
+					c.fillRandom(s3.v[l*1024 : (l+1)*1024])
+				}
+			}
 			s3.exec = uint64(1) << uint(lane)
+			s3.vcc = st.vcc&(uint64(1)<<uint(lane)) | c.rng.U64()&^(uint64(1)<<uint(lane))
 			res1 := c.runOn(ci, &s3, 2)
 			if res1.fault != "" {
 				continue
